@@ -75,6 +75,12 @@ def make_substitution(ccls, case_map=None):
                 for a in parts[1:-1]:
                     base = I.get_attr(base, a)
                 I.set_attr(base, parts[-1], make_symbolic(I, spec, f"{site}#{n}.{expr_name}", env=ns))
+            # `in_every_case*` clauses: assumed of the havocked state however the call ends (normal return or may_raise)
+            for name, f in contract_functions(ccls, "in_every_case"):
+                t = I.truthy(I.spec_call(f, bind_by_name(f, ns)))
+                if t is False:
+                    raise Unsupported(f"clause '{name}' of the call-site contract {ccls.cname} is constantly false here")
+                path.assume(t)
             # exceptions the callee's contract leaves open (may_raise): the call may end in any of them, after having changed
             # whatever it may modify
             for k in (getattr(ccls, "may_raise", None) or []):
